@@ -105,6 +105,14 @@ func (k Keeper) InitGenesis(
 			recordKeyBytes, _ := hexutil.Decode(recordKey)
 			k.AppendUndelegationToMature(ctx, epoch, recordKeyBytes)
 			k.SetUndelegationMaturityEpoch(ctx, recordKeyBytes, epoch)
+			// the hold counts are not part of the delegation module's genesis; every
+			// undelegation tracked here is held exactly once by this module (see
+			// AfterUndelegationStarted), so the hold is taken again on import.
+			if err := k.delegationKeeper.IncrementUndelegationHoldCount(
+				ctx, recordKeyBytes,
+			); err != nil {
+				panic(fmt.Sprintf("could not hold undelegation %s: %s", recordKey, err))
+			}
 		}
 	}
 	// ApplyValidatorChanges only gets changes and hence the vote power must be set here.
